@@ -7,6 +7,7 @@ package zzverif
 import (
 	"errors"
 	"fmt"
+	"google.golang.org/protobuf/types/known/anypb"
 	"reflect"
 	"sort"
 	"strings"
@@ -484,6 +485,9 @@ func c20GenExtract(s Src) c20ExtractCase {
 }
 
 // collectOfType: an independent walk (descriptor Range; Any-packed contained resources are entered).
+// c20InAny: elements of the wanted type found inside Any-packed resources by the last walk
+var c20InAny int
+
 func collectOfType(m protoreflect.Message, name string, out *[]proto.Message, depth int, viaAny *bool) {
 	if depth > 60 {
 		return
@@ -493,7 +497,15 @@ func collectOfType(m protoreflect.Message, name string, out *[]proto.Message, de
 	}
 	if m.Descriptor().FullName() == "google.protobuf.Any" {
 		*viaAny = true
-		return // the contents of an Any have no identity inside the resource
+		// the contents of an Any have no identity inside the resource, but they are counted
+		if a, ok := m.Interface().(*anypb.Any); ok {
+			if inner, err := a.UnmarshalNew(); err == nil {
+				var in []proto.Message
+				collectOfType(inner.ProtoReflect(), name, &in, depth+1, new(bool))
+				c20InAny += len(in)
+			}
+		}
+		return
 	}
 	m.Range(func(f protoreflect.FieldDescriptor, v protoreflect.Value) bool {
 		if f.Message() == nil {
@@ -610,7 +622,9 @@ func c20RunExtract(ctx *Ctx, c c20ExtractCase) {
 	res := m.(fhir.Resource)
 	var want []proto.Message
 	viaAny := false
+	c20InAny = 0
 	collectOfType(res.ProtoReflect(), c.T, &want, 0, &viaAny)
+	wantInAny := c20InAny
 	hasCR := false
 	{
 		var crs []proto.Message
@@ -651,8 +665,8 @@ func c20RunExtract(ctx *Ctx, c c20ExtractCase) {
 			fail("ExtractAll returns elements that are not of the type / not in the resource", fmt.Sprintf("%d returned, %d present", len(plain), len(want)))
 			return
 		}
-	} else if len(plain) < len(want) {
-		fail("ExtractAll misses elements", fmt.Sprintf("%d returned, ≥ %d present", len(plain), len(want)))
+	} else if len(plain) != len(want)+wantInAny {
+		fail("ExtractAll does not return every element once (elements inside contained resources included)", fmt.Sprintf("%d returned, %d present outside + %d inside Any-packed contained resources", len(plain), len(want), wantInAny))
 		return
 	}
 	// labelled extraction
